@@ -1276,6 +1276,10 @@ func walkObjectValues(v reflect.Value, fn func(reflect.Value)) {
 		}
 	case jtypes.IsStruct(v):
 		for i, N := 0, v.NumField(); i < N; i++ {
+			if !v.Field(i).CanInterface() {
+				// Skip unexported fields.
+				continue
+			}
 			fn(v.Field(i))
 		}
 	}
